@@ -1,1 +1,684 @@
-From Verif Require Import Model.TryList.
+(* C17 — proofs about Model/TryList.v: the try cursor (nextServerToTry) and virtual-host cleaning. *)
+From Coq Require Import List NArith Bool Arith Lia.
+From Verif Require Import Base.Hex Base.Text Model.TryList.
+Import ListNotations.
+Open Scope N_scope.
+
+(* ---------- small facts ---------- *)
+
+Lemma beq_bytes_refl a : beq_bytes a a = true.
+Proof. apply beq_bytes_eq. reflexivity. Qed.
+
+Lemma beq_bytes_false a b : beq_bytes a b = false <-> a <> b.
+Proof.
+  split.
+  - intros H E. subst. rewrite beq_bytes_refl in H. discriminate.
+  - intro H. destruct (beq_bytes a b) eqn:E; [|reflexivity]. apply beq_bytes_eq in E. contradiction.
+Qed.
+
+Lemma same_true o n : same o n = true <-> o = Some n.
+Proof.
+  destruct o as [x|]; simpl.
+  - rewrite beq_bytes_eq. split; [intros ->; reflexivity | intro H; inversion H; reflexivity].
+  - split; discriminate.
+Qed.
+
+Lemma same_false o n : same o n = false <-> o <> Some n.
+Proof.
+  split.
+  - intros H E. apply same_true in E. congruence.
+  - intro H. destruct (same o n) eqn:E; [|reflexivity]. apply same_true in E. contradiction.
+Qed.
+
+(* the exclusion test as a proposition *)
+Definition Excl (current in_flight failed : option bytes) (n : bytes) : Prop :=
+  current = Some n \/ in_flight = Some n \/ failed = Some n.
+
+Lemma excluded_true st cur n :
+  excluded st cur n = true <-> Excl (connected st) (inflight st) cur n.
+Proof.
+  unfold excluded, Excl. rewrite !orb_true_iff, !same_true. tauto.
+Qed.
+
+Lemma excluded_false st cur n :
+  excluded st cur n = false <-> ~ Excl (connected st) (inflight st) cur n.
+Proof.
+  rewrite <- excluded_true. destruct (excluded st cur n); split; congruence.
+Qed.
+
+(* ---------- the loop ---------- *)
+
+(* impl-level: what [scan] finds, in terms of listed names *)
+Lemma scan_some reg ex : forall l i ti ti' j s,
+  scan reg ex l i ti = (ti', Some (j, s)) ->
+  exists k n, j = (i + k)%nat /\ ti' = j /\ nth_error l k = Some n /\ ex n = false /\
+    find_server reg n = Some s /\
+    forall k' m, (k' < k)%nat -> nth_error l k' = Some m -> ex m = true \/ find_server reg m = None.
+Proof.
+  induction l as [|n r IH]; intros i ti ti' j s H; simpl in H; [discriminate|].
+  destruct (ex n) eqn:En.
+  - apply IH in H. destruct H as (k & n' & Hj & Ht & Hn & He & Hf & Hall).
+    exists (S k), n'. split; [lia|]. split; [lia|]. split; [exact Hn|]. split; [exact He|]. split; [exact Hf|].
+    intros k' m Hk Hm. destruct k' as [|k']; simpl in Hm.
+    + inversion Hm; subst. left. assumption.
+    + apply (Hall k' m); [lia|assumption].
+  - destruct (find_server reg n) as [s0|] eqn:Ef.
+    + inversion H; subst. exists O, n. split; [lia|]. split; [reflexivity|]. split; [reflexivity|].
+      split; [exact En|]. split; [exact Ef|].
+      intros k' m Hk. lia.
+    + apply IH in H. destruct H as (k & n' & Hj & Ht & Hn & He & Hf & Hall).
+      exists (S k), n'. split; [lia|]. split; [lia|]. split; [exact Hn|]. split; [exact He|]. split; [exact Hf|].
+      intros k' m Hk Hm. destruct k' as [|k']; simpl in Hm.
+      * inversion Hm; subst. right. assumption.
+      * apply (Hall k' m); [lia|assumption].
+Qed.
+
+Lemma scan_none reg ex : forall l i ti ti',
+  scan reg ex l i ti = (ti', None) ->
+  (forall k m, nth_error l k = Some m -> ex m = true \/ find_server reg m = None) /\
+  (ti' = ti \/ (i <= ti')%nat).
+Proof.
+  induction l as [|n r IH]; intros i ti ti' H; simpl in H.
+  - inversion H; subst. split; [|left; reflexivity]. intros [|k] m Hm; discriminate.
+  - destruct (ex n) eqn:En.
+    + apply IH in H. destruct H as [Hall Ht]. split.
+      * intros [|k] m Hm; simpl in Hm; [inversion Hm; subst; left; assumption | eauto].
+      * destruct Ht; [left; assumption | right; lia].
+    + destruct (find_server reg n) eqn:Ef; [discriminate|].
+      apply IH in H. destruct H as [Hall Ht]. split.
+      * intros [|k] m Hm; simpl in Hm; [inversion Hm; subst; right; assumption | eauto].
+      * right. destruct Ht; lia.
+Qed.
+
+Lemma scan_none_conv reg ex : forall l i ti,
+  (forall k m, nth_error l k = Some m -> ex m = true \/ find_server reg m = None) ->
+  snd (scan reg ex l i ti) = None.
+Proof.
+  induction l as [|n r IH]; intros i ti H; simpl; [reflexivity|].
+  destruct (H O n eq_refl) as [E|E]; rewrite E.
+  - apply IH. intros k m Hm. apply (H (S k) m Hm).
+  - destruct (ex n); apply IH; intros k m Hm; apply (H (S k) m Hm).
+Qed.
+
+Lemma scan_cursor_ge reg ex : forall l i ti,
+  (ti <= i)%nat -> (ti <= fst (scan reg ex l i ti))%nat.
+Proof.
+  induction l as [|n r IH]; intros i ti H; simpl; [lia|].
+  destruct (ex n).
+  - apply IH. lia.
+  - destruct (find_server reg n); simpl; [lia|].
+    specialize (IH (S i) i). lia.
+Qed.
+
+(* ---------- the list that is scanned ---------- *)
+
+Definition wf_state (cfg : config) (vhost : bytes) (st : pstate) : Prop :=
+  cache st = [] \/ cache st = candidates cfg vhost.
+
+Lemma init_wf cfg vhost : wf_state cfg vhost init_state.
+Proof. left. reflexivity. Qed.
+
+(* under wf_state, [next] scans [candidates] from the cursor *)
+Lemma to_scan_wf cfg vhost st : wf_state cfg vhost st -> to_scan cfg vhost st = candidates cfg vhost.
+Proof.
+  unfold wf_state, to_scan, remembered, candidates. intros [H|H]; rewrite H.
+  - reflexivity.
+  - destruct (lookup_forced (clean vhost) (forced cfg)) eqn:El.
+    + destruct (try_list cfg); reflexivity.
+    + reflexivity.
+Qed.
+
+Lemma next_unfold cfg vhost reg st cur :
+  wf_state cfg vhost st ->
+  next cfg vhost reg st cur =
+    match candidates cfg vhost with
+    | [] => (mkP (remembered cfg vhost st) (cursor st) (connected st) (inflight st), None)
+    | c2 =>
+      (mkP c2 (fst (scan reg (excluded st cur) (skipn (cursor st) c2) (cursor st) (cursor st)))
+           (connected st) (inflight st),
+       snd (scan reg (excluded st cur) (skipn (cursor st) c2) (cursor st) (cursor st)))
+    end.
+Proof. intro H. unfold next. rewrite (to_scan_wf _ _ _ H). reflexivity. Qed.
+
+Lemma remembered_empty cfg vhost st :
+  wf_state cfg vhost st -> candidates cfg vhost = [] -> remembered cfg vhost st = [].
+Proof.
+  unfold wf_state, remembered, candidates. intros [H|H] Ec; rewrite H.
+  - destruct (lookup_forced (clean vhost) (forced cfg)); [reflexivity | discriminate].
+  - rewrite Ec. destruct (lookup_forced (clean vhost) (forced cfg)); [reflexivity | discriminate].
+Qed.
+
+Lemma next_wf cfg vhost reg st cur :
+  wf_state cfg vhost st -> wf_state cfg vhost (fst (next cfg vhost reg st cur)).
+Proof.
+  intro Hwf. rewrite (next_unfold _ _ _ _ _ Hwf).
+  destruct (candidates cfg vhost) eqn:Ec.
+  - simpl. left. simpl. apply remembered_empty; assumption.
+  - simpl. right. simpl. symmetry. exact Ec.
+Qed.
+
+Lemma step_wf cfg vhost st o :
+  wf_state cfg vhost st -> wf_state cfg vhost (fst (step cfg vhost st o)).
+Proof.
+  intro Hwf. destruct o as [reg failed|s| |s]; simpl.
+  - pose proof (next_wf cfg vhost reg st failed Hwf) as H.
+    destruct (next cfg vhost reg st failed) as [st' r]. exact H.
+  - exact Hwf.
+  - exact Hwf.
+  - exact Hwf.
+Qed.
+
+(* ---------- main characterisation (impl level: exclusion by listed name) ---------- *)
+
+Lemma nth_error_skipn {A} (l : list A) c k : nth_error (skipn c l) k = nth_error l (c + k).
+Proof.
+  revert l. induction c as [|c IH]; intros l; simpl; [reflexivity|].
+  destruct l as [|x l]; [destruct k; reflexivity | apply IH].
+Qed.
+
+Lemma next_some_impl cfg vhost reg st cur st' j s :
+  wf_state cfg vhost st ->
+  next cfg vhost reg st cur = (st', Some (j, s)) ->
+  exists n, (cursor st <= j)%nat /\ cursor st' = j /\
+    nth_error (candidates cfg vhost) j = Some n /\
+    ~ Excl (connected st) (inflight st) cur n /\ find_server reg n = Some s /\
+    forall j' m, (cursor st <= j' < j)%nat -> nth_error (candidates cfg vhost) j' = Some m ->
+      Excl (connected st) (inflight st) cur m \/ find_server reg m = None.
+Proof.
+  intros Hwf H. rewrite (next_unfold _ _ _ _ _ Hwf) in H.
+  destruct (candidates cfg vhost) as [|c0 cl] eqn:Ec; [inversion H|]. cbv beta iota zeta in H.
+  destruct (scan reg (excluded st cur) (skipn (cursor st) (c0 :: cl)) (cursor st) (cursor st)) as [ti r] eqn:Es.
+  simpl in H. inversion H; subst. clear H.
+  apply scan_some in Es. destruct Es as (k & n & Hj & Ht & Hn & He & Hf & Hall).
+  exists n. rewrite nth_error_skipn in Hn. subst j. simpl.
+  split; [lia|]. split; [exact Ht|]. split; [exact Hn|].
+  split; [apply excluded_false; exact He|]. split; [exact Hf|].
+  intros j' m Hr Hm.
+  destruct (Hall (j' - cursor st)%nat m) as [E|E].
+  - lia.
+  - rewrite nth_error_skipn. replace (cursor st + (j' - cursor st))%nat with j' by lia. assumption.
+  - left. apply excluded_true. assumption.
+  - right. assumption.
+Qed.
+
+Lemma next_cursor_monotone cfg vhost reg st cur :
+  (cursor st <= cursor (fst (next cfg vhost reg st cur)))%nat.
+Proof.
+  unfold next. destruct (to_scan cfg vhost st) as [|c0 cl].
+  - simpl. apply Nat.le_refl.
+  - simpl. apply scan_cursor_ge. apply Nat.le_refl.
+Qed.
+
+Lemma next_none_impl cfg vhost reg st cur st' :
+  wf_state cfg vhost st ->
+  next cfg vhost reg st cur = (st', None) ->
+  (forall j m, (cursor st <= j)%nat -> nth_error (candidates cfg vhost) j = Some m ->
+      Excl (connected st) (inflight st) cur m \/ find_server reg m = None) /\
+  (cursor st <= cursor st')%nat.
+Proof.
+  intros Hwf H. split.
+  2:{ pose proof (next_cursor_monotone cfg vhost reg st cur) as Hm. rewrite H in Hm. exact Hm. }
+  rewrite (next_unfold _ _ _ _ _ Hwf) in H.
+  destruct (candidates cfg vhost) as [|c0 cl] eqn:Ec.
+  - intros [|j] m _ Hm; discriminate.
+  - cbv beta iota zeta in H.
+    destruct (scan reg (excluded st cur) (skipn (cursor st) (c0 :: cl)) (cursor st) (cursor st)) as [ti r] eqn:Es.
+    simpl in H. inversion H; subst. clear H.
+    apply scan_none in Es. destruct Es as [Hall _].
+    intros j m Hj Hm. destruct (Hall (j - cursor st)%nat m) as [E|E].
+    + rewrite nth_error_skipn. replace (cursor st + (j - cursor st))%nat with j by lia. assumption.
+    + left. apply excluded_true. assumption.
+    + right. assumption.
+Qed.
+
+Lemma next_none_conv cfg vhost reg st cur :
+  wf_state cfg vhost st ->
+  (forall j m, (cursor st <= j)%nat -> nth_error (candidates cfg vhost) j = Some m ->
+      Excl (connected st) (inflight st) cur m \/ find_server reg m = None) ->
+  snd (next cfg vhost reg st cur) = None.
+Proof.
+  intros Hwf Hall. rewrite (next_unfold _ _ _ _ _ Hwf).
+  destruct (candidates cfg vhost) as [|c0 cl] eqn:Ec; [reflexivity|].
+  simpl. apply scan_none_conv. intros k m Hm. rewrite nth_error_skipn in Hm.
+  destruct (Hall (cursor st + k)%nat m) as [E|E]; [lia|assumption| |].
+  - left. apply excluded_true. assumption.
+  - right. assumption.
+Qed.
+
+(* ---------- the loaded-configuration premise ---------- *)
+
+Lemma consistent_spec reg l :
+  consistent reg l = true ->
+  forall n s, In n l -> find_server reg n = Some s -> s = n.
+Proof.
+  unfold consistent. rewrite forallb_forall. intros H n s Hin Hf.
+  specialize (H n Hin). rewrite Hf in H. apply beq_bytes_eq in H. exact H.
+Qed.
+
+(* Eligibility of a listed name, server identity level *)
+Definition Eligible (reg : list bytes) (current in_flight failed : option bytes) (m : bytes) : Prop :=
+  exists s, find_server reg m = Some s /\ ~ Excl current in_flight failed s.
+
+Lemma not_eligible_iff reg c f x m :
+  (forall s, find_server reg m = Some s -> s = m) ->
+  (~ Eligible reg c f x m <-> (Excl c f x m \/ find_server reg m = None)).
+Proof.
+  intro Hc. unfold Eligible. split.
+  - intro H. destruct (find_server reg m) as [s|] eqn:Ef; [|right; reflexivity].
+    left. pose proof (Hc s eq_refl) as ->.
+    destruct (same c m || same f m || same x m) eqn:E.
+    + unfold Excl. rewrite !orb_true_iff, !same_true in E. tauto.
+    + exfalso. apply H. exists m. split; [reflexivity|]. intro HE.
+      unfold Excl in HE. rewrite <- !same_true, <- !orb_true_iff, orb_assoc in HE. congruence.
+  - intros [He|Hn] [s [Hf Hne]].
+    + pose proof (Hc s Hf) as ->. contradiction.
+    + congruence.
+Qed.
+
+(* ---------- first_eligible (judge's predicate) and scan agree under the premise ---------- *)
+
+Lemma eligible_impl reg ex n :
+  (forall s, find_server reg n = Some s -> s = n) ->
+  eligible reg ex n = negb (ex n) && match find_server reg n with Some _ => true | None => false end.
+Proof.
+  intro Hc. unfold eligible. destruct (find_server reg n) as [s|] eqn:Ef.
+  - rewrite (Hc s eq_refl). rewrite andb_true_r. reflexivity.
+  - rewrite andb_false_r. reflexivity.
+Qed.
+
+Lemma first_eligible_scan reg ex : forall l i ti from,
+  (from <= i)%nat ->
+  (forall n s, In n l -> find_server reg n = Some s -> s = n) ->
+  first_eligible reg ex l i from = snd (scan reg ex l i ti).
+Proof.
+  induction l as [|n r IH]; intros i ti from Hle Hc; simpl; [reflexivity|].
+  assert (Hl : Nat.leb from i = true) by (apply Nat.leb_le; exact Hle).
+  rewrite Hl. simpl.
+  rewrite (eligible_impl reg ex n (fun s => Hc n s (or_introl eq_refl))).
+  destruct (ex n); simpl.
+  - apply IH; [lia|]. intros; eapply Hc; [right|]; eassumption.
+  - destruct (find_server reg n) as [s|]; simpl; [reflexivity|].
+    apply IH; [lia|]. intros; eapply Hc; [right|]; eassumption.
+Qed.
+
+Lemma first_eligible_skip reg ex : forall c l i from,
+  (i + c <= from)%nat ->
+  first_eligible reg ex l i from = first_eligible reg ex (skipn c l) (i + c) from.
+Proof.
+  induction c as [|c IH]; intros l i from H; simpl.
+  - rewrite Nat.add_0_r. reflexivity.
+  - destruct l as [|n r]; simpl.
+    + reflexivity.
+    + assert (Hl : Nat.leb from i = false) by (apply Nat.leb_gt; lia).
+      rewrite Hl. simpl. rewrite (IH r (S i) from) by lia.
+      replace (S i + c)%nat with (i + S c)%nat by lia. reflexivity.
+Qed.
+
+Lemma in_skipn {A} (x : A) c l : In x (skipn c l) -> In x l.
+Proof.
+  revert l. induction c as [|c IH]; intros l H; simpl in H; [assumption|].
+  destruct l; [assumption|]. right. apply IH. assumption.
+Qed.
+
+(* ---------- histories: the model satisfies the judge's predicate ---------- *)
+
+Definition ex_of (s : sstate) (failed : option bytes) : bytes -> bool :=
+  fun n => same (s_connected s) n || same (s_inflight s) n || same failed n.
+
+Lemma scan_ext reg ex ex' : (forall n, ex n = ex' n) ->
+  forall l i ti, scan reg ex l i ti = scan reg ex' l i ti.
+Proof.
+  intros He. induction l as [|n l IH]; intros i ti; simpl; [reflexivity|].
+  rewrite <- (He n). destruct (ex n); [apply IH|].
+  destruct (find_server reg n); [reflexivity | apply IH].
+Qed.
+
+Lemma holds_step_model cfg vhost st s o :
+  wf_state cfg vhost st ->
+  connected st = s_connected s -> inflight st = s_inflight s ->
+  (match o with ONext reg _ => consistent reg (candidates cfg vhost) = true | _ => True end) ->
+  holds_step (candidates cfg vhost) s (cursor st) o (snd (step cfg vhost st o)) = true.
+Proof.
+  intros Hwf Hc Hf Hcons. destruct o as [reg failed|c| |f]; simpl.
+  - (* ONext *)
+    pose proof (next_unfold cfg vhost reg st failed Hwf) as Hn.
+    pose proof (next_cursor_monotone cfg vhost reg st failed) as Hmono.
+    destruct (next cfg vhost reg st failed) as [st' r] eqn:En. simpl in Hmono. simpl.
+    assert (Hex : forall n, (same (s_connected s) n || same (s_inflight s) n || same failed n)
+                            = excluded st failed n).
+    { intro n. unfold excluded. rewrite Hc, Hf. reflexivity. }
+    destruct (candidates cfg vhost) as [|c0 cl] eqn:Ec.
+    + inversion Hn; subst. simpl. apply Nat.leb_le. apply Nat.le_refl.
+    + rewrite (first_eligible_skip reg _ (cursor st) (c0 :: cl) 0 (cursor st)) by lia.
+      simpl plus.
+      rewrite (first_eligible_scan reg _ (skipn (cursor st) (c0 :: cl)) (cursor st) (cursor st) (cursor st)
+                 (le_n _)).
+      2:{ intros n s0 Hin Hfs. apply (consistent_spec reg (c0 :: cl) Hcons n s0); [|assumption].
+          eapply in_skipn. eassumption. }
+      rewrite (scan_ext reg _ (excluded st failed) Hex).
+      cbv beta iota zeta in Hn. inversion Hn; subst. simpl.
+      destruct (scan reg (excluded st failed) (skipn (cursor st) (c0 :: cl)) (cursor st) (cursor st)) as [ti r0] eqn:Es.
+      simpl. simpl in Hmono.
+      destruct r0 as [[j sv]|]; simpl.
+      * apply scan_some in Es. destruct Es as (k & n & Hj & Ht & _). subst.
+        rewrite beq_bytes_refl. simpl. apply Nat.eqb_refl.
+      * apply Nat.leb_le. exact Hmono.
+  - reflexivity.
+  - reflexivity.
+  - apply Nat.eqb_refl.
+Qed.
+
+Lemma step_tracks cfg vhost st s o :
+  connected st = s_connected s -> inflight st = s_inflight s ->
+  connected (fst (step cfg vhost st o)) = s_connected (s_step s o) /\
+  inflight (fst (step cfg vhost st o)) = s_inflight (s_step s o) /\
+  cursor (fst (step cfg vhost st o)) = o_cursor (snd (step cfg vhost st o)).
+Proof.
+  intros Hc Hf. destruct o as [reg failed|c| |f]; simpl.
+  - unfold next. destruct (to_scan cfg vhost st) as [|c0 cl]; simpl; auto.
+  - auto.
+  - auto.
+  - auto.
+Qed.
+
+Lemma run_holds cfg vhost : forall ops st s,
+  wf_state cfg vhost st ->
+  connected st = s_connected s -> inflight st = s_inflight s ->
+  consistent_ops (candidates cfg vhost) ops = true ->
+  holds_history (candidates cfg vhost) s (cursor st) ops (run cfg vhost st ops) = true.
+Proof.
+  induction ops as [|o ops IH]; intros st s Hwf Hc Hf Hcons; simpl; [reflexivity|].
+  simpl in Hcons. apply andb_true_iff in Hcons. destruct Hcons as [Ho Hrest].
+  pose proof (holds_step_model cfg vhost st s o Hwf Hc Hf) as Hs.
+  pose proof (step_tracks cfg vhost st s o Hc Hf) as (Hc' & Hf' & Hcur).
+  pose proof (step_wf cfg vhost st o Hwf) as Hwf'.
+  destruct (step cfg vhost st o) as [st' ob] eqn:Est. simpl in *.
+  rewrite Hs.
+  - simpl. rewrite <- Hcur. apply IH; assumption.
+  - destruct o; auto.
+Qed.
+
+(* ---------- cleaning ---------- *)
+
+Lemma cut_nul_app_nul h r : forallb (fun b => negb (b =? 0)) h = true -> cut_nul (h ++ 0 :: r) = h.
+Proof.
+  induction h as [|c h IH]; simpl; intro H; [reflexivity|].
+  apply andb_true_iff in H. destruct H as [Hc Hr]. apply negb_true_iff in Hc. rewrite Hc.
+  f_equal. apply IH. exact Hr.
+Qed.
+
+Lemma cut_nul_id s : forallb (fun b => negb (b =? 0)) s = true -> cut_nul s = s.
+Proof.
+  induction s as [|c s IH]; simpl; intro H; [reflexivity|].
+  apply andb_true_iff in H. destruct H as [Hc Hr]. apply negb_true_iff in Hc. rewrite Hc.
+  f_equal. apply IH. exact Hr.
+Qed.
+
+Lemma cut_nul_app h r : forallb (fun b => negb (b =? 0)) h = true -> cut_nul (h ++ r) = h ++ cut_nul r.
+Proof.
+  induction h as [|c h IH]; simpl; intro H; [reflexivity|].
+  apply andb_true_iff in H. destruct H as [Hc Hr]. apply negb_true_iff in Hc. rewrite Hc.
+  f_equal. apply IH. exact Hr.
+Qed.
+
+Lemma starts3_false_head c r : (c =? 47) = false -> starts3 (c :: r) = false.
+Proof. intro H. unfold starts3. destruct r as [|b [|d r]]; try reflexivity. rewrite H. reflexivity. Qed.
+
+Lemma cut_sep3_id s : forallb (fun b => negb (b =? 47)) s = true -> cut_sep3 s = s.
+Proof.
+  induction s as [|c s IH]; intro H; [reflexivity|].
+  simpl in H. apply andb_true_iff in H. destruct H as [Hc Hr]. apply negb_true_iff in Hc.
+  change (cut_sep3 (c :: s)) with (if starts3 (c :: s) then [] else c :: cut_sep3 s).
+  rewrite (starts3_false_head c s Hc). f_equal. apply IH. exact Hr.
+Qed.
+
+Lemma cut_sep3_app h r :
+  forallb (fun b => negb (b =? 47)) h = true -> starts3 r = true -> cut_sep3 (h ++ r) = h.
+Proof.
+  induction h as [|c h IH]; intros H Hs.
+  - simpl. destruct r as [|c r]; [reflexivity|].
+    change (cut_sep3 (c :: r)) with (if starts3 (c :: r) then [] else c :: cut_sep3 r).
+    rewrite Hs. reflexivity.
+  - simpl in H. apply andb_true_iff in H. destruct H as [Hc Hr]. apply negb_true_iff in Hc.
+    change (cut_sep3 ((c :: h) ++ r)) with (if starts3 (c :: h ++ r) then [] else c :: cut_sep3 (h ++ r)).
+    rewrite (starts3_false_head c (h ++ r) Hc). f_equal. apply IH; assumption.
+Qed.
+
+Lemma trim_left_dots_id s : (nth 0 s 0 =? 46) = false -> trim_left_dots s = s.
+Proof. destruct s as [|c s]; simpl; intro H; [reflexivity|]. rewrite H. reflexivity. Qed.
+
+Lemma nth0_rev_last (s : bytes) : nth 0 (rev s) 0 = last s 0.
+Proof.
+  induction s as [|c s IH]; [reflexivity|].
+  simpl rev. destruct s as [|d s].
+  - reflexivity.
+  - change (last (c :: d :: s) 0) with (last (d :: s) 0). rewrite <- IH.
+    simpl rev. destruct (rev s ++ [d]) eqn:E.
+    + destruct (rev s); discriminate.
+    + reflexivity.
+Qed.
+
+Lemma trim_dots_id s :
+  (nth 0 s 0 =? 46) = false -> (last s 0 =? 46) = false -> trim_dots s = s.
+Proof.
+  intros H1 H2. unfold trim_dots. rewrite (trim_left_dots_id s H1).
+  rewrite trim_left_dots_id; [apply rev_involutive|]. rewrite nth0_rev_last. exact H2.
+Qed.
+
+Lemma last_index_of_none c s : has c s = false -> last_index_of c s = None.
+Proof.
+  unfold has. induction s as [|x s IH]; simpl; intro H; [reflexivity|].
+  apply orb_false_iff in H. destruct H as [Hx Hs]. rewrite (IH Hs).
+  rewrite N.eqb_sym. rewrite Hx. reflexivity.
+Qed.
+
+Lemma last_index_of_app c h r :
+  has c r = false -> last_index_of c (h ++ c :: r) = Some (length h).
+Proof.
+  intro Hr. induction h as [|x h IH]; simpl.
+  - rewrite (last_index_of_none c r Hr). rewrite N.eqb_refl. reflexivity.
+  - rewrite IH. reflexivity.
+Qed.
+
+Lemma has_app c a b : has c (a ++ b) = has c a || has c b.
+Proof. unfold has. apply existsb_app. Qed.
+
+Lemma has_false_of_forall (p : N -> bool) c s :
+  p c = false -> forallb p s = true -> has c s = false.
+Proof.
+  intros Hp. unfold has. induction s as [|x s IH]; simpl; intro H; [reflexivity|].
+  apply andb_true_iff in H. destruct H as [Hx Hs]. rewrite (IH Hs), orb_false_r.
+  destruct (N.eqb_spec c x); [subst; congruence | reflexivity].
+Qed.
+
+Lemma forallb_impl {A} (p q : A -> bool) l :
+  (forall x, p x = true -> q x = true) -> forallb p l = true -> forallb q l = true.
+Proof.
+  intros Hpq. induction l as [|x l IH]; simpl; intro H; [reflexivity|].
+  apply andb_true_iff in H. destruct H as [Hx Hl]. rewrite (Hpq x Hx), (IH Hl). reflexivity.
+Qed.
+
+Lemma is_sep_cases b : negb (is_sep b) = true ->
+  (b =? 0) = false /\ (b =? 47) = false /\ (b =? 58) = false /\ (b =? 91) = false /\ (b =? 93) = false.
+Proof.
+  unfold is_sep. rewrite negb_true_iff, !orb_false_iff. tauto.
+Qed.
+
+Record plain (h : bytes) : Prop := mkPlain {
+  pl_nul : forallb (fun b => negb (b =? 0)) h = true;
+  pl_slash : forallb (fun b => negb (b =? 47)) h = true;
+  pl_colon : has 58 h = false;
+  pl_lbr : has 91 h = false;
+  pl_rbr : has 93 h = false;
+  pl_first : (nth 0 h 0 =? 46) = false;
+  pl_last : (last h 0 =? 46) = false
+}.
+
+Lemma plain_host_plain h : plain_host h = true -> plain h.
+Proof.
+  unfold plain_host. rewrite !andb_true_iff, !negb_true_iff. intros [[Hs Hf] Hl].
+  constructor; try assumption.
+  - eapply forallb_impl; [|exact Hs]. intros x Hx. apply is_sep_cases in Hx.
+    apply negb_true_iff. tauto.
+  - eapply forallb_impl; [|exact Hs]. intros x Hx. apply is_sep_cases in Hx.
+    apply negb_true_iff. tauto.
+  - apply (has_false_of_forall (fun b => negb (is_sep b))); [reflexivity | exact Hs].
+  - apply (has_false_of_forall (fun b => negb (is_sep b))); [reflexivity | exact Hs].
+  - apply (has_false_of_forall (fun b => negb (is_sep b))); [reflexivity | exact Hs].
+Qed.
+
+Lemma nth0_plain_not_lbr h : has 91 h = false -> (nth 0 h 0 =? 91) = false.
+Proof.
+  destruct h as [|c h]; simpl; intro H; [reflexivity|].
+  unfold has in H. simpl in H. apply orb_false_iff in H. destruct H as [H _].
+  rewrite N.eqb_sym. exact H.
+Qed.
+
+Lemma host_str_plain h : plain h -> host_str h = h.
+Proof.
+  intros [_ _ Hc _ _ _ _]. unfold host_str, split_host_port.
+  rewrite (last_index_of_none 58 h Hc). reflexivity.
+Qed.
+
+Lemma clear_plain h : plain h -> clear_virtual_host h = h.
+Proof.
+  intros [Hn Hs _ _ _ Hf Hl]. unfold clear_virtual_host.
+  rewrite (cut_nul_id h Hn), (cut_sep3_id h Hs). apply trim_dots_id; assumption.
+Qed.
+
+Lemma clean_plain h : plain h -> clean h = go_to_lower h.
+Proof. intro H. unfold clean. rewrite (clear_plain h H), (host_str_plain h H). reflexivity. Qed.
+
+Lemma digit_props r : forallb is_digit r = true ->
+  forallb (fun b => negb (b =? 0)) r = true /\ forallb (fun b => negb (b =? 47)) r = true /\
+  has 58 r = false /\ has 91 r = false /\ has 93 r = false /\ forallb (fun b => negb (b =? 46)) r = true.
+Proof.
+  intro H.
+  assert (D : forall x, is_digit x = true -> (48 <= x <= 57)).
+  { intros x Hx. unfold is_digit in Hx. apply andb_true_iff in Hx. destruct Hx as [A B].
+    apply N.leb_le in A. apply N.leb_le in B. lia. }
+  repeat split.
+  - eapply forallb_impl; [|exact H]. intros x Hx. apply D in Hx. apply negb_true_iff, N.eqb_neq. lia.
+  - eapply forallb_impl; [|exact H]. intros x Hx. apply D in Hx. apply negb_true_iff, N.eqb_neq. lia.
+  - apply (has_false_of_forall is_digit); [reflexivity|exact H].
+  - apply (has_false_of_forall is_digit); [reflexivity|exact H].
+  - apply (has_false_of_forall is_digit); [reflexivity|exact H].
+  - eapply forallb_impl; [|exact H]. intros x Hx. apply D in Hx. apply negb_true_iff, N.eqb_neq. lia.
+Qed.
+
+Lemma forallb_app_true {A} (p : A -> bool) a b :
+  forallb p a = true -> forallb p b = true -> forallb p (a ++ b) = true.
+Proof. intros Ha Hb. rewrite forallb_app, Ha, Hb. reflexivity. Qed.
+
+Lemma last_app_cons (a : bytes) x r d : last (a ++ x :: r) d = last (x :: r) d.
+Proof.
+  induction a as [|y a IH]; [reflexivity|].
+  simpl app. destruct (a ++ x :: r) eqn:E.
+  - destruct a; discriminate.
+  - transitivity (last (n :: l) d); [reflexivity | exact IH].
+Qed.
+
+Lemma last_not_dot r x :
+  (x =? 46) = false -> forallb (fun b => negb (b =? 46)) r = true -> (last (x :: r) 0 =? 46) = false.
+Proof.
+  revert x. induction r as [|y r IH]; intros x Hx Hr; [exact Hx|].
+  simpl in Hr. apply andb_true_iff in Hr. destruct Hr as [Hy Hr]. apply negb_true_iff in Hy.
+  change (last (x :: y :: r) 0) with (last (y :: r) 0). apply IH; assumption.
+Qed.
+
+Lemma firstn_app_exact {A} (a b : list A) : firstn (length a) (a ++ b) = a.
+Proof. induction a; simpl; [destruct b; reflexivity | f_equal; assumption]. Qed.
+
+Lemma skipn_app_exact {A} (a b : list A) : skipn (length a) (a ++ b) = b.
+Proof. induction a; simpl; [reflexivity | assumption]. Qed.
+
+Lemma clean_port h r : plain h -> forallb is_digit r = true -> clean (h ++ 58 :: r) = go_to_lower h.
+Proof.
+  intros [Hn Hs Hc Hl Hr Hf Hla] Hd.
+  destruct (digit_props r Hd) as (Dn & Ds & Dc & Dl & Dr & Ddot).
+  unfold clean, clear_virtual_host.
+  rewrite cut_nul_id.
+  2:{ apply forallb_app_true; [exact Hn|]. simpl. rewrite Dn. reflexivity. }
+  rewrite cut_sep3_id.
+  2:{ apply forallb_app_true; [exact Hs|]. simpl. rewrite Ds. reflexivity. }
+  rewrite trim_dots_id.
+  2:{ destruct h as [|c h]; [reflexivity | exact Hf]. }
+  2:{ rewrite last_app_cons. apply last_not_dot; [reflexivity | exact Ddot]. }
+  unfold host_str, split_host_port.
+  rewrite (last_index_of_app 58 h r Dc).
+  assert (H0 : (nth 0 (h ++ 58 :: r) 0 =? 91) = false).
+  { destruct h as [|c h]; [reflexivity|]. simpl. apply (nth0_plain_not_lbr (c :: h) Hl). }
+  rewrite H0. rewrite firstn_app_exact. rewrite Hc.
+  rewrite !has_app. rewrite Hl, Hr. simpl.
+  rewrite Dl, Dr. reflexivity.
+Qed.
+
+Lemma clean_nul h r : plain h -> clean (h ++ 0 :: r) = go_to_lower h.
+Proof.
+  intro Hp. pose proof (clean_plain h Hp) as E. unfold clean, clear_virtual_host in *.
+  rewrite (cut_nul_app_nul h r (pl_nul h Hp)).
+  rewrite (cut_nul_id h (pl_nul h Hp)) in E. exact E.
+Qed.
+
+Lemma starts3_cut_nul r : starts3 r = true -> starts3 (cut_nul r) = true.
+Proof.
+  destruct r as [|a [|b [|c r]]]; simpl; try discriminate. intro H.
+  apply andb_true_iff in H. destruct H as [H Hc]. apply andb_true_iff in H. destruct H as [Ha Hb].
+  apply N.eqb_eq in Ha. apply N.eqb_eq in Hb. apply N.eqb_eq in Hc. subst. reflexivity.
+Qed.
+
+Lemma clean_sep3 h r : plain h -> starts3 r = true -> clean (h ++ r) = go_to_lower h.
+Proof.
+  intros Hp Hs. pose proof (clean_plain h Hp) as E. unfold clean, clear_virtual_host in *.
+  rewrite (cut_nul_app h r (pl_nul h Hp)).
+  rewrite (cut_sep3_app h (cut_nul r) (pl_slash h Hp) (starts3_cut_nul r Hs)).
+  rewrite (cut_nul_id h (pl_nul h Hp)), (cut_sep3_id h (pl_slash h Hp)) in E. exact E.
+Qed.
+
+Theorem clean_removes_suffixes h rest :
+  plain_host h = true -> removable_suffix rest = true -> clean (h ++ rest) = go_to_lower h.
+Proof.
+  intros Hh Hr. apply plain_host_plain in Hh.
+  destruct rest as [|c r]; simpl in Hr.
+  - rewrite app_nil_r. apply clean_plain. exact Hh.
+  - destruct (N.eqb_spec c 58) as [->|Hc58].
+    + apply clean_port; assumption.
+    + destruct (N.eqb_spec c 0) as [->|Hc0].
+      * apply clean_nul. exact Hh.
+      * apply clean_sep3; assumption.
+Qed.
+
+(* ASCII hosts: lowering keeps the shape, so cleaning is idempotent on them *)
+Lemma lower_cp_ascii_eq c : c < 128 ->
+  lower_cp c = if (65 <=? c) && (c <=? 90) then c + 32 else c.
+Proof.
+  intro Hc. unfold lower_cp, in_rng.
+  destruct ((65 <=? c) && (c <=? 90)); [reflexivity|].
+  assert (E2 : (192 <=? c) = false) by (apply N.leb_gt; lia).
+  assert (E3 : (913 <=? c) = false) by (apply N.leb_gt; lia).
+  assert (E4 : (1024 <=? c) = false) by (apply N.leb_gt; lia).
+  assert (E5 : (1040 <=? c) = false) by (apply N.leb_gt; lia).
+  rewrite E2, E3, E4, E5. reflexivity.
+Qed.
+
+Lemma lower_cp_ascii_cases c : c < 128 ->
+  (65 <= c <= 90 /\ lower_cp c = c + 32) \/ ((c < 65 \/ 90 < c) /\ lower_cp c = c).
+Proof.
+  intro Hc. rewrite (lower_cp_ascii_eq c Hc).
+  destruct (N.leb_spec 65 c); destruct (N.leb_spec c 90); simpl; [left|right|right|right]; lia.
+Qed.
+
+Lemma lower_cp_idem_ascii c : c < 128 -> lower_cp (lower_cp c) = lower_cp c.
+Proof.
+  intro Hc. destruct (lower_cp_ascii_cases c Hc) as [[Hr ->]|[Hr ->]].
+  - destruct (lower_cp_ascii_cases (c + 32)) as [[Hr' E]|[_ E]]; [lia|lia|exact E].
+  - destruct (lower_cp_ascii_cases c Hc) as [[Hr' E]|[_ E]]; [lia|exact E].
+Qed.
+
+(* lowering neither creates nor removes a byte that is a separator, a dot or below 'A' *)
+Lemma lower_cp_eqb_nonletter c x : c < 128 -> (x < 65 \/ (90 < x < 97) \/ 122 < x) ->
+  (lower_cp c =? x) = (c =? x).
+Proof.
+  intros Hc Hx. destruct (lower_cp_ascii_cases c Hc) as [[Hr ->]|[Hr ->]]; [|reflexivity].
+  transitivity false; [apply N.eqb_neq; lia | symmetry; apply N.eqb_neq; lia].
+Qed.
